@@ -82,6 +82,50 @@ def check(ctx):
 
     for cls in ("IdealReservoir", "SinglePhaseReservoir"):
         _step(ctx, cls)
+    returned_callables(ctx, "C10-e")
+
+
+def returned_callables(ctx, rule):
+    """C10-e: a callable handed out by a method (the recovery interpolator) is a self-contained object: it does not read
+    the reservoir's attributes when it is *called* - otherwise what it returns changes with every later simulate /
+    recovery call (or fails once the cache is dropped), instead of reflecting the simulation it was built for."""
+    import ast
+
+    from ..values import FuncV, LambdaV, PartialV
+
+    P = ctx.P
+    n = 0
+    for cls in FAMILY:
+        ci = P.cls(RES + cls)
+        for name in ("recovery_factor_interpolator",):
+            if ci.lookup(name) is None:
+                continue
+            it, m, paths = method_paths(ctx, cls, name)
+            seen = set()
+            for p in returns(paths):
+                v = p.value
+                while isinstance(v, PartialV):
+                    v = v.func
+                node = v.info.node if isinstance(v, FuncV) else (v.node if isinstance(v, LambdaV) else None)
+                key = id(node) if node is not None else "object"
+                if key in seen:
+                    continue
+                seen.add(key)
+                n += 1
+                live = []
+                if node is not None:
+                    first = m.params[0] if m.params else "self"
+                    for x in ast.walk(node):
+                        if isinstance(x, ast.Attribute) and isinstance(x.value, ast.Name) and x.value.id == first:
+                            live.append(f"{first}.{x.attr} (line {x.lineno})")
+                    if isinstance(v, FuncV) and v.self_val is not None and not live:
+                        live.append("bound method of the reservoir")
+                ctx.check(
+                    not live, rule, f"{RES}{cls}.{name}:returned callable is self-contained", m.where(),
+                    "the callable that is handed out does not read attributes of the reservoir at call time (it is built from the values of the simulation it belongs to)",
+                    signature="late reads " + ",".join(sorted({t.split(' ')[0] for t in live}))[:120], reads=sorted(set(live))[:6],
+                )
+    ctx.floor(rule, n, 2, "returned interpolators")
 
 
 def constructor_rule(ctx, rule):
